@@ -1,8 +1,11 @@
 """C11 — orbit numbers count ascending-node crossings; last-node time is a real node."""
+import contextlib
 import datetime as dt
 import itertools
 import math
+import os
 import signal
+import time
 import threading
 import warnings
 
@@ -28,12 +31,23 @@ RULE = ("TLEs: the repo's test TLEs and tlegen's real near-earth sets (own deriv
         "true nodes 0-5 d from epoch (all nodes for the draggy family: B* 2e-4..1.2e-3 at 15.0-15.65 rev/d), and the last-node "
         "query takes part in the order-of-first-use permutations; the crossing time is asked with arbitrary bounds in one "
         "representation and with whole-minute bounds in all seven (each must meet the clause, all must agree to 1 us). "
+        "Process time zone: for every oracle set the last-node and orbit-number clauses are evaluated again with TZ set to two POSIX "
+        "rules other than UTC (one west, one east of Greenwich; whole and fractional hours, with and without summer time; "
+        "time.tzset, restored afterwards): all 7 representations of a whole minute (each must meet the clauses, the node results "
+        "must lie within 2 km of z of each other, the integer numbers must be equal away from a crossing) and a sub-minute "
+        "instant as naive/UTC-aware datetime and datetime64[ns]. Short-arc family (last-node clauses only, not part of the count "
+        "population): e 0.3-0.7 with the argument of perigee within 30 deg of 90 or 270 deg, perigee height 150-1500 km, half of "
+        "them with the largest eccentricity a 225-minute period allows at that perigee less 0-0.06 (what the library refuses as "
+        "deep space is dropped: e <= ~0.46 remains); queries uniform and 1 s-10 min after every kind of equator crossing, each in "
+        "one of the 7 representations; 'no other node' against the 5 s scan of z, extended backwards to a result older than the window. "
         "distinct = (tle, representation, ticks)")
 ASSUMPTIONS = [
     "the count clause is judged where the expected number is >= 0 (for negative numbers 'truncated value' and 'crossing count' contradict each other)",
     "slack 2 s + 5 s/day applied at both ends of the counting interval (DESIGN section 7)",
     "'no other ascending node after it': the crossing that the returned tick itself brackets (z(result) in [-1 km, 0]) is the same node",
     "crossing-time root tolerance = the function's own rtol on microseconds since 1970 (default 1e-9: 1.7 s), times 1.5",
+    "a naive datetime denotes UTC whatever the time zone of the process (the statement's 'naive or UTC datetime'); representations of "
+    "one instant are one query: two results that each lie within 1 km of z of the last node lie within 2 km of z of each other",
     "agreement of the closed form with the propagated trajectory, northward velocity, 'no other node' and the termination of the "
     "backward stepping loop are measured (oracle, watchdog), not proved; IEEE rounding of the cubic is compared bit for bit, not proved",
 ]
@@ -253,6 +267,20 @@ def gen_tle(ctx, family):
             ov["incl"] = "%8.4f" % r.choice([r.uniform(3, 177), r.uniform(3, 35), r.uniform(145, 177)])
             ov["ecc"] = "%07d" % int(10 ** r.uniform(-2, -0.5) * 1e7)
             regime = "near"
+        elif family == "shortarc":
+            # e 0.3-0.7 with the perigee over the northern or southern hemisphere: the satellite crosses that hemisphere in a
+            # small part of the revolution (22 % at e = 0.45).  The mean motion follows from a perigee height of 150-1500 km;
+            # what the library does not take as a near-earth set (period >= 225 min: e above ~0.46) is dropped below.
+            # Half of the draws take the largest eccentricity a near-earth set of that perigee height can have (period 225 min:
+            # a = 12270 km) less up to 0.06: the shortest arcs in the domain.
+            rp_km = 6378.135 + r.choice([r.uniform(150, 1500), r.uniform(150, 600)])
+            ecc = r.choice([r.uniform(0.3, 0.7), max(0.3, 1 - rp_km / 12270.0 - r.uniform(0, 0.06))])
+            a_km = rp_km / (1 - ecc)
+            ov["ecc"] = "%07d" % int(ecc * 1e7)
+            ov["mmotion"] = "%11.8f" % (math.sqrt(398600.8 / a_km ** 3) * 86400.0 / (2 * math.pi))
+            ov["argp"] = "%8.4f" % (r.choice([90.0, 270.0]) + r.choice([0.0, r.uniform(-30, 30), r.uniform(-10, 10)]))
+            ov["incl"] = "%8.4f" % r.choice([r.uniform(3, 177), r.uniform(30, 150), 63.4349, 116.5651])
+            regime = "near"
         else:
             ov["incl"] = "%8.4f" % r.choice([r.uniform(3, 177), r.uniform(3, 177), 98.7, 51.6, 63.4349, r.uniform(80, 100)])
         if family == "dragfree" or (family != "draggy" and r.random() < 0.15):
@@ -352,21 +380,30 @@ def gen_tles(ctx, n, n_real):
 
 
 # ------------------------------------------------------------------------------------------------ the trajectory's own crossings
-def crossings(o, t0_us, t1_us, step_us=5000000):
+def crossings(o, t0_us, t1_us, step_us=5000000, down=False, samples=None):
     """South-to-north equator crossings of get_position's z in [t0, t1]: for each the first microsecond with z > 0
-    (5 s sampling, then bisection, all crossings at once)."""
+    (5 s sampling, then bisection, all crossings at once).  down=True: the north-to-south crossings instead (first
+    microsecond with z <= 0).  `samples`: a one-element list that keeps the sampled z for a second call on the same interval."""
     n = int((t1_us - t0_us) // step_us) + 2
     ts = t0_us + step_us * np.arange(n, dtype=np.int64)
     with warnings.catch_warnings():
         warnings.simplefilter("ignore")
-        z = o.get_position(ts.astype("datetime64[us]"), normalize=False)[0][2]
-        idx = np.where((z[:-1] <= 0) & (z[1:] > 0))[0]
+        if samples:
+            z = samples[0]
+        else:
+            z = o.get_position(ts.astype("datetime64[us]"), normalize=False)[0][2]
+            if samples is not None:
+                samples.append(z)
+        if down:
+            idx = np.where((z[:-1] > 0) & (z[1:] <= 0))[0]
+        else:
+            idx = np.where((z[:-1] <= 0) & (z[1:] > 0))[0]
         a = ts[idx].copy()
         b = ts[idx + 1].copy()
         while len(a) and np.any(b - a > 1):
             m = (a + b) // 2
             zm = o.get_position(m.astype("datetime64[us]"), normalize=False)[0][2]
-            up = zm > 0
+            up = (zm <= 0) if down else (zm > 0)
             b = np.where(up, m, b)
             a = np.where(up, a, m)
     return b
@@ -404,6 +441,7 @@ class Sat:
         self.ecc = float(o.tle.excentricity)
         self.mm = float(o.tle.mean_motion)
         self._cs = None
+        self._z = []
         self._ref = o
 
     def fresh(self):
@@ -414,8 +452,32 @@ class Sat:
 
     def cs(self):
         if self._cs is None:
-            self._cs = crossings(self._ref, self.e_us - int(1.3 * DAY_US), self.e_us + int(5.15 * DAY_US))
+            self._cs = crossings(self._ref, self.e_us - int(1.3 * DAY_US), self.e_us + int(5.15 * DAY_US), samples=self._z)
         return self._cs
+
+    def ds(self):
+        """north-to-south crossings over the window"""
+        if getattr(self, "_ds", None) is None:
+            self._ds = crossings(self._ref, self.e_us - int(1.3 * DAY_US), self.e_us + int(5.15 * DAY_US), down=True, samples=self._z)
+        return self._ds
+
+    def nodes_before_window(self, from_us):
+        """South-to-north crossings between `from_us` (at most 12 days before the window) and the start of the window
+        covered by cs(): the same dense scan (5 s sampling of z of get_position, far below the shortest stay of a
+        near-earth satellite on one side of the equator), made only when a returned node lies before the window."""
+        w0 = self.e_us - int(1.3 * DAY_US)
+        a = max(int(from_us), w0 - 12 * DAY_US)
+        if a >= w0:
+            return np.zeros(0, dtype=np.int64)
+        key = a // (DAY_US // 4)
+        cache = self.__dict__.setdefault("_before", {})
+        if key not in cache:
+            try:
+                cache[key] = crossings(self._ref, key * (DAY_US // 4), w0 + 10 ** 7)
+            except Exception:  # noqa  propagator refuses that far back: nothing to compare with
+                cache[key] = np.zeros(0, dtype=np.int64)
+        c = cache[key]
+        return c[c < w0]
 
     def zvz(self, ns):
         with warnings.catch_warnings():
@@ -491,8 +553,9 @@ def judge_number(sat, o, rep):
     return out, n_int, n_flt
 
 
-def judge_last_an(sat, rep, o=None):
-    """Violations of the last-node clauses for one query: list of (kind, observed, required, extra)."""
+def judge_last_an(sat, rep, o=None, result=None):
+    """Violations of the last-node clauses for one query: list of (kind, observed, required, extra).
+    `result`, a list, receives (returned instant in ns, z, vz there)."""
     o = o or sat.fresh()
     val = rep_value(rep)
     q_ns = rep_ns(rep)
@@ -514,18 +577,96 @@ def judge_last_an(sat, rep, o=None):
     if r_ns > q_ns:
         out.append(("later_than_query", str(res), "not later than %s" % str(val), {}))
     z, vz = sat.zvz(r_ns)
+    if result is not None:
+        result.append((r_ns, z, vz))
     if not abs(z) <= 1.0:
         out.append(("not_a_node", "z = %r km at %s" % (z, res), "|z| <= 1 km", {}))
     if not vz > 0:
         out.append(("not_ascending", "vz = %r km/s at %s" % (vz, res), "northward velocity", {}))
     cs = sat.cs()
     same_ns = int(((-z / vz) * 1.5 + 1e-5) * 1e9) if (z < 0 and vz > 0) else 0
+    if r_ns // 1000 < sat.e_us - int(1.3 * DAY_US):
+        # a result older than the scanned window: the scan is extended back to it (never needed when the result is the last node)
+        cs = np.concatenate([sat.nodes_before_window(r_ns // 1000), cs])
     cs_ns = cs * 1000          # exact in int64
-    if len(cs) and r_ns >= cs_ns[0]:
-        other = cs[(cs_ns - 1000 > r_ns + same_ns) & (cs_ns <= q_ns)]   # a listed crossing lies in (c - 1 us, c]
-        if len(other):
-            out.append(("other_node_between", "ascending node at %s after the result %s" % (np.datetime64(int(other[0]), "us"), res),
-                        "no other ascending node after it before the query %s" % str(val), {}))
+    other = cs[(cs_ns - 1000 > r_ns + same_ns) & (cs_ns <= q_ns)]   # a listed crossing lies in (c - 1 us, c]
+    if len(other):
+        out.append(("other_node_between", "%d ascending node(s) after the result %s, first at %s, last at %s"
+                    % (len(other), res, np.datetime64(int(other[0]), "us"), np.datetime64(int(other[-1]), "us")),
+                    "no other ascending node after it before the query %s" % str(val), {}))
+    return out
+
+
+# POSIX rule strings (no zone database needed): west / east of Greenwich, whole and fractional hours, with and without summer time
+TZ_WEST = ["XYZ4", "HST10", "NST3:30", "AOE12", "PST8", "EST5EDT,M3.2.0,M11.1.0"]
+TZ_EAST = ["JST-9", "IST-5:30", "NPT-5:45", "LINT-14", "EET-2", "CET-1CEST,M3.5.0,M10.5.0/3"]
+
+
+@contextlib.contextmanager
+def process_tz(tz):
+    """The process time zone set to the POSIX rule `tz` (None: left alone) for the duration of the block."""
+    if not tz:
+        yield
+        return
+    old = os.environ.get("TZ")
+    os.environ["TZ"] = tz
+    time.tzset()
+    try:
+        yield
+    finally:
+        if old is None:
+            os.environ.pop("TZ", None)
+        else:
+            os.environ["TZ"] = old
+        time.tzset()
+
+
+def judge_zone(sat, ns, tz, kinds=None):
+    """With the process time zone `tz`: the last-node clauses (fresh object) and the orbit-number clauses (another fresh
+    object) for the representations `kinds` of the instant `ns`.  A naive datetime is UTC whatever the zone of the host.
+    When all representations hold the same instant they describe one query: the last-node results, each within 1 km of
+    z of THE last node, lie within 2 km of z of each other, and the integer orbit numbers are equal.
+    List of (kind, observed, required, extra, rep)."""
+    kinds = list(kinds or REPS)
+    out = []
+    with process_tz(tz):
+        o_an, o_num = sat.fresh(), sat.fresh()
+        reps = [make_rep(k, ns) for k in kinds]
+        same_instant = len(set(rep_ns(x) for x in reps)) == 1
+        got, nums = {}, {}
+        for rep in reps:
+            res = []
+            for f in judge_last_an(sat, rep, o=o_an, result=res):
+                out.append(f + (rep,))
+            if res:
+                got[rep["kind"]] = res[0]
+            try:
+                found, n_int, n_flt = guarded(lambda: judge_number(sat, o_num, rep))
+            except Timeout:
+                out.append(("nonterminating_number", "no result within %.0f s" % WATCHDOG_S, "get_orbit_number returns", {}, rep))
+                continue
+            for f in found:
+                out.append(f + (rep,))
+            if not any(f[0] == "raises" for f in found):
+                nums[rep["kind"]] = n_int
+        if same_instant and len(got) > 1 and all(v[2] > 0 for v in got.values()):
+            tol_ns = int(2.0 / min(v[2] for v in got.values()) * 1e9) + 2000
+            ts = sorted(v[0] for v in got.values())
+            if ts[-1] - ts[0] > tol_ns:
+                med = ts[len(ts) // 2]
+                bad = max(got, key=lambda k: abs(got[k][0] - med))
+                out.append(("last_an_representation", {k: str(np.datetime64(int(v[0]), "ns")) for k, v in got.items()},
+                            "one node for every representation of the instant (results within %.6f s: 2 km of z)" % (tol_ns / 1e9),
+                            {"instant_ns": int(ns), "kinds": kinds}, make_rep(bad, ns)))
+        if same_instant and len(set(nums.values())) > 1:
+            t_us = ns // 1000 + (ns % 1000) / 1000.0
+            lo, hi = count_bounds(sat.cs(), sat.e_us, sat.rev, t_us)
+            if lo == hi:        # not within the slack of a crossing
+                vals = sorted(nums.values())
+                med = vals[len(vals) // 2]
+                bad = max(nums, key=lambda k: abs(nums[k] - med))
+                out.append(("number_representation", dict(nums), "one orbit number for every representation of the instant",
+                            {"instant_ns": int(ns), "kinds": kinds}, make_rep(bad, ns)))
     return out
 
 
@@ -920,6 +1061,8 @@ def emit(ctx, sat, rep, found, site, extra_case=None):
         case.update(extra)
         if extra_case:
             case.update(extra_case)
+        if os.environ.get("TZ") and "tz" not in case:
+            case["process_tz"] = os.environ["TZ"]       # the zone the whole run was made in (harness/check.py)
         ctx.violation(kind, case, observed, required, site=site)
 
 
@@ -1039,6 +1182,74 @@ def oracle_sat(ctx, sat, n_random, n_an, n_cross, all_crossings=True, n_after=16
     emit(ctx, sat, {"kind": "us", "ticks": t1}, found, "Orbital.get_orbit_number", {"seed_times": list(seeds), "perms": [list(p) for p in perms]})
 
 
+def oracle_zones(ctx, sat):
+    """The time-representation clauses under two process time zones other than UTC (one west, one east of Greenwich):
+    all seven representations of a whole minute (which all hold exactly), and the sub-minute instants next to a node and
+    anywhere in the window as naive / UTC-aware datetime and datetime64[ns]."""
+    r = ctx.rng
+    e = sat.e_us
+    cs = sat.cs()
+    inside = cs[(cs >= e - DAY_US) & (cs <= e + 5 * DAY_US)]
+    for tz in (r.choice(TZ_WEST), r.choice(TZ_EAST)):
+        us = r.randrange(e - DAY_US + 60 * 10 ** 6, e + 5 * DAY_US)
+        jobs = [((us - us % (60 * 10 ** 6)) * 1000, REPS)]
+        if len(inside) and r.random() < 0.5:
+            us2 = min(int(r.choice(list(inside))) + int(10 ** r.uniform(4, 8.5)), e + 5 * DAY_US)   # 10 ms .. 5 min after a node
+        else:
+            us2 = r.randrange(e - DAY_US, e + 5 * DAY_US)
+        jobs.append((us2 * 1000 + r.randrange(1000), ["naive", "aware", "ns"]))
+        for ns, kinds in jobs:
+            kinds = [k for k in kinds if not timed_out(ctx, k)]
+            if not kinds or timed_out(ctx, "init"):
+                continue
+            found = judge_zone(sat, ns, tz, kinds)
+            for f in found:
+                if f[0] == "nonterminating":
+                    timed_out(ctx, f[4]["kind"], note=True)
+                elif f[0] == "nonterminating_number":
+                    timed_out(ctx, "init", note=True)
+            ctx.count("eval_oracle_zone_last_an", len(kinds))
+            ctx.count("eval_oracle_zone_number", len(kinds))
+            ctx.bump("oracle_process_zone", tz)
+            for (kind, observed, required, extra, rep) in found:
+                site = "Orbital.get_last_an_time" if kind in LAST_AN_KINDS else "Orbital.get_orbit_number"
+                emit(ctx, sat, rep, [(kind, observed, required, extra)], site, {"tz": tz})
+
+
+LAST_AN_KINDS = ("nonterminating", "result_type", "result_unit", "later_than_query", "not_a_node", "not_ascending",
+                 "other_node_between", "last_an_representation")
+
+
+def oracle_shortarc(ctx, sat, n_q):
+    """Last-node clauses only, on a set whose northern or southern arc is short: queries anywhere in the window and
+    1 s - 10 min after the trajectory's own north-to-south and south-to-north crossings (the last node is then one short
+    arc, or nearly a whole revolution, back), each in a random representation.  'No other node' is judged against the
+    5 s scan of z of get_position (Sat.cs), extended backwards when the returned node is older than the window."""
+    r = ctx.rng
+    e = sat.e_us
+    marks = [sat.ds(), sat.cs()]
+    marks = [m[(m >= e - DAY_US) & (m <= e + 5 * DAY_US - 601 * 10 ** 6)] for m in marks]
+    o = sat.fresh()
+    for i in range(n_q):
+        m = marks[i % 2]
+        if i % 3 == 2 or not len(m):
+            us = r.randrange(e - DAY_US, e + 5 * DAY_US)
+        else:
+            us = int(r.choice(list(m))) + int(10 ** r.uniform(6, 8.78))
+        rep = make_rep(REPS[(i + i // 7) % 7], us * 1000 + r.randrange(1000))
+        if rep_ns(rep) < (e - DAY_US) * 1000:      # a coarse unit truncated the instant out of the window
+            continue
+        if timed_out(ctx, rep["kind"]):
+            continue
+        found = judge_last_an(sat, rep, o=o)
+        if any(f[0] == "nonterminating" for f in found):
+            timed_out(ctx, rep["kind"], note=True)
+        ctx.count("eval_oracle_last_an_shortarc")
+        ctx.bump("oracle_representation", rep["kind"])
+        ctx.distinct((sat.l1[2:7] + sat.l2[8:16], rep["kind"], rep["ticks"]))
+        emit(ctx, sat, rep, found, "Orbital.get_last_an_time")
+
+
 def oracle(ctx):
     n = ctx.size(64, 300)
     tl = gen_tles(ctx, n, ctx.size(8, 14))
@@ -1048,6 +1259,7 @@ def oracle(ctx):
         ctx.bump("oracle_sin_i", "%.1f" % abs(math.sin(math.radians(sat.incl))))
         try:
             oracle_sat(ctx, sat, ctx.size(40, 220), ctx.size(4, 8), ctx.size(4, 10), all_crossings=True)
+            oracle_zones(ctx, sat)
         except Exception as e:  # noqa  propagator refusals inside the window are C13's subject
             if not is_refusal(e):
                 raise
@@ -1055,6 +1267,24 @@ def oracle(ctx):
             ctx.note("set skipped (%s): %s / %s" % (type(e).__name__, sat.l1, sat.l2))
         if i == 0:
             ctx.sample({"line1": sat.l1, "line2": sat.l2, "family": sat.family, "crossings": int(len(sat.cs()))})
+    # eccentric sets with a short northern or southern arc: last-node clauses only (the count clause keeps its population)
+    for i in range(ctx.size(24, 120)):
+        t = gen_tle(ctx, "shortarc")
+        if not t:
+            continue
+        sat = Sat(*t)
+        ctx.bump("oracle_family", sat.family)
+        ctx.bump("shortarc_eccentricity", "%.2f" % sat.ecc)
+        try:
+            oracle_shortarc(ctx, sat, ctx.size(42, 126))
+        except Exception as e:  # noqa  propagator refusals inside the window are C13's subject
+            if not is_refusal(e):
+                raise
+            ctx.count("oracle_sets_skipped")
+            ctx.note("set skipped (%s): %s / %s" % (type(e).__name__, sat.l1, sat.l2))
+        if i == 0:
+            ctx.sample({"line1": sat.l1, "line2": sat.l2, "family": sat.family, "eccentricity": sat.ecc,
+                        "arg_perigee": float(sat._ref.tle.arg_perigee), "crossings": int(len(sat.cs()))})
 
 
 # ------------------------------------------------------------------------------------------------ known findings / replay
@@ -1117,9 +1347,22 @@ def replay(ctx, payload):
         print("correspondence %s" % ("still broken" if still else "restored"))
         return 1 if still else 0
     case = payload.get("input", payload)
+    if case.get("process_tz") and os.environ.get("TZ") != case["process_tz"]:
+        with process_tz(case["process_tz"]):
+            return replay(ctx, payload)
     kind = case.get("check") or payload.get("kind")
     sat = Sat(case["line1"], case["line2"], case.get("family", "?"))
     rep = case["rep"]
+    if case.get("tz") or kind in ("last_an_representation", "number_representation"):
+        # evaluated under a process time zone and / or across the representations of one instant
+        print("process time zone %s, instant %s" % (case.get("tz") or "(unchanged)", np.datetime64(int(case.get("instant_ns", rep_ns(rep))), "ns")))
+        found = judge_zone(sat, int(case.get("instant_ns", rep_ns(rep))), case.get("tz"), case.get("kinds") or [rep["kind"]])
+        found = [f[:4] for f in found if f[0] == kind and (f[4]["kind"] == rep["kind"] or "instant_ns" in case)]
+        for (k, observed, required, extra) in found:
+            print("VIOLATES %s: %s; required: %s" % (k, observed, required))
+        if not found:
+            print("property holds on this case")
+        return 1 if found else 0
     if kind in ("count", "trunc", "tbus", "int_type"):
         found, n_int, n_flt = judge_number(sat, sat.fresh(), rep)
         print("orbit number %d (%r) at %s" % (n_int, n_flt, rep_value(rep)))
